@@ -208,8 +208,81 @@ class STime:
         return "STime(%s, %s, %s, %s)" % (self.hour, self.minute, self.second, self.microsecond)
 
 
+# ------------------------------------------------------------------------------------------------ process-local zone
+class SymZone:
+    """Stub for the zoneinfo.ZoneInfo object (C implementation) that tzlocal returns for the process zone: offsets come
+    from a transition table [(utc transition as naive datetime, offset seconds from then on)], entry 0 = window start.
+    Look-ups fork per interval (binary search with branch()), so that the offset is concrete on every path.  Wall-clock
+    look-ups follow zoneinfo's fold=0 rule: a transition takes effect at wall time  t_utc + max(before, after)."""
+
+    def __init__(self, key, table):
+        self.key = key
+        self._offs = [off for _, off in table]
+        self._utc = [None] + [self._pair(t) for t, _ in table[1:]]
+        self._wall = [None] + [self._pair(t + _rdt.timedelta(seconds=max(table[i][1], table[i + 1][1])))
+                               for i, (t, _) in enumerate(table[1:])]
+
+    @staticmethod
+    def _pair(t):
+        return t.toordinal(), ((t.hour * 60 + t.minute) * 60 + t.second) * 1000000 + t.microsecond
+
+    def _idx(self, marks, o, r):
+        lo, hi = 1, len(marks)                  # first i in [1, n] whose mark is after (o, r); result i - 1
+        while lo < hi:
+            mid = (lo + hi) // 2
+            to, tr = marks[mid]
+            if branch(z_lex_le(z3.IntVal(to), z3.IntVal(tr), o, r)):
+                lo = mid + 1
+            else:
+                hi = mid
+        return lo - 1
+
+    def offset_s_wall(self, dt):
+        return self._offs[self._idx(self._wall, dt._ord(), dt._us_of_day())]
+
+    def offset_s_utc(self, dt):
+        return self._offs[self._idx(self._utc, dt._ord(), dt._us_of_day())]
+
+    def utcoffset(self, dt):
+        if dt is None:
+            return None
+        return _rdt.timedelta(seconds=self.offset_s_wall(dt))
+
+    def dst(self, dt):
+        raise Unsupported("dst() of the process-local zone")
+
+    def tzname(self, dt):
+        raise Unsupported("tzname() of the process-local zone")
+
+    def fromutc(self, dt):
+        res = dt._shift_us(self.offset_s_utc(dt) * 1000000)
+        res.tzinfo = self
+        return res
+
+    def __repr__(self):
+        return "<local:%s>" % self.key
+
+
+LOCAL = [None]          # None: the process-local zone is UTC; else a SymZone (set per task by a harness)
+
+
+def set_local(zone):
+    LOCAL[0] = zone
+
+
+core.RESET_HOOKS.append(lambda: set_local(None))
+
+
 # ------------------------------------------------------------------------------------------------ tz helpers
-def fixed_offset_us(tz):
+def fixed_offset_us(tz, dt=None):
+    if isinstance(tz, SymZone):
+        if dt is None:
+            raise Unsupported("offset of the process-local zone without a wall clock")
+        return tz.offset_s_wall(dt) * 1000000
+    return _fixed_offset_us(tz)
+
+
+def _fixed_offset_us(tz):
     """offset in µs of a fixed-offset tzinfo; anything with transitions is outside the engine"""
     if tz is None:
         raise Unsupported("offset of None tz")
@@ -282,8 +355,10 @@ class SDateTime:
     def now(cls, tz=None):
         clk = cls._clock()
         if tz is None:
+            if LOCAL[0] is not None:
+                return LOCAL[0].fromutc(clk._copy()).replace(tzinfo=None)
             return clk.replace()  # process-local zone is UTC (stub)
-        if getattr(tz, "_utc_transition_times", None):
+        if getattr(tz, "_utc_transition_times", None) or isinstance(tz, SymZone):
             u = clk._copy()
             u.tzinfo = tz
             return tz.fromutc(u)
@@ -297,7 +372,7 @@ class SDateTime:
 
     @classmethod
     def utcnow(cls):
-        return cls.now()
+        return cls._clock().replace()
 
     @classmethod
     def fromtimestamp(cls, ts, tz=None):
@@ -310,8 +385,10 @@ class SDateTime:
             raise ValueError("year is out of range")
         res = cls._from_pair(o, r, None)
         if tz is None:
+            if LOCAL[0] is not None:
+                return LOCAL[0].fromutc(res).replace(tzinfo=None)
             return res
-        if getattr(tz, "_utc_transition_times", None):
+        if getattr(tz, "_utc_transition_times", None) or isinstance(tz, SymZone):
             res.tzinfo = tz
             return tz.fromutc(res)     # CPython: tz.fromutc(utc value carrying tz)
         res = res._shift_us(fixed_offset_us(tz))
@@ -320,7 +397,12 @@ class SDateTime:
 
     @classmethod
     def utcfromtimestamp(cls, ts):
-        return cls.fromtimestamp(ts)
+        saved = LOCAL[0]
+        LOCAL[0] = None
+        try:
+            return cls.fromtimestamp(ts)
+        finally:
+            LOCAL[0] = saved
 
     @classmethod
     def strptime(cls, data_string, format):
@@ -367,7 +449,7 @@ class SDateTime:
         o, r = self._ord(), self._us_of_day()
         if self.tzinfo is None:
             return o, r
-        off = fixed_offset_us(self.tzinfo)
+        off = fixed_offset_us(self.tzinfo, self)
         if off == 0:
             return o, r
         t = r - off
@@ -486,13 +568,18 @@ class SDateTime:
 
     def astimezone(self, tz=None):
         if self.tzinfo is None:
-            # naive values are taken as process-local time; the stubbed process zone is UTC
-            a = 0
+            # naive values are taken as process-local time (the stubbed process zone: UTC unless a harness set one)
+            a = LOCAL[0].offset_s_wall(self) * 1000000 if LOCAL[0] is not None else 0
         else:
-            a = fixed_offset_us(self.tzinfo)
+            a = fixed_offset_us(self.tzinfo, self)
         if tz is None:
-            raise Unsupported("astimezone() to the process-local zone")
-        if getattr(tz, "_utc_transition_times", None):
+            # CPython: the result carries a FIXED-offset timezone holding the local offset in force at that instant
+            utc = self._shift_us(-a) if a else self._copy()
+            b = LOCAL[0].offset_s_utc(utc) if LOCAL[0] is not None else 0
+            r = utc._shift_us(b * 1000000) if b else utc._copy()
+            r.tzinfo = _rdt.timezone(_rdt.timedelta(seconds=b))
+            return r
+        if getattr(tz, "_utc_transition_times", None) or isinstance(tz, SymZone):
             # CPython: utc = (self - offset).replace(tzinfo=tz); return tz.fromutc(utc)   (pytz's own fromutc runs)
             utc = self._shift_us(-a) if a else self._copy()
             utc.tzinfo = tz
